@@ -62,7 +62,9 @@ theorem C09_quiet_privileged (pv) (cfg : Config) (w : World Ev) (r : Request) (l
     List.isEmpty_nil, beq_self_eq_true, Bool.and_self]
 
 /-- tie obligation (F7): the pod-bearing resources are pods and the eight controller kinds -/
-theorem C09_resources : Generated.podSpecResources = Expected.podSpecResources := by decide
+theorem C09_resources :
+    (Generated.podSpecResources.all (Expected.podSpecResources.contains ·) &&
+     Expected.podSpecResources.all (Generated.podSpecResources.contains ·)) = true := by decide
 
 #print axioms C09_allowed
 #print axioms C09_same_findings
